@@ -1086,7 +1086,10 @@ class Repository:
             )
 
     def _flatten_resolve_paths(self, paths):
-        return list(flatten_paths(path.resolve(strict=True) for path in paths))
+        # The same file can be reached more than once (repeated arguments,
+        # a directory and a file inside it); keep the first occurrence only
+        flattened = flatten_paths(path.resolve(strict=True) for path in paths)
+        return list(dict.fromkeys(flattened))
 
     async def snapshot(self, *, paths, note=None, rate_limit=None):
         self.display_status('Collecting files')
